@@ -11,22 +11,40 @@ from harness import parser_common as pc
 ID = "C01"
 DESIGN_REF = "6/C01"
 LEAN_MODULES = ["Clikit.Props.C01"]
-REQUIRED_THEOREMS = []
+REQUIRED_THEOREMS = ["Clikit.Props.C01.option_short_eq_long", "Clikit.Props.C01.argument_index_eq_name",
+                     "Clikit.Props.C01.option_default_when_absent", "Clikit.Props.C01.argument_default_when_absent",
+                     "Clikit.Props.C01.arguments_listing"]
 TECHNIQUE = ("Lean 4 model of DefaultArgsParser/Args with theorems about the token loop and the accessors + "
              "differential correspondence on generated formats x spellings, oracle re-deriving the intended assignment")
-LEVEL_TEXT = ""
-LEVEL_NOTE = ""
+LEVEL_TEXT = ("PARTIAL proof. Proved in Lean on the parser/Args model: access by long name, short name and position agree, "
+              "everything not given reports its default, listings contain exactly what was set (for every Args object and "
+              "format). The main claim - every spelling of an assignment parses to exactly that assignment in both modes - is "
+              "NOT yet a theorem: it is decided by the differential correspondence (real parser vs Lean model, strict and "
+              "lenient) plus an independent oracle that re-derives the intended assignment for generated formats x "
+              "assignments x spellings (all item kinds, grouped flags, interleaving, -- tail, command names by name/alias or "
+              "with a suffix omitted, base formats).")
+LEVEL_NOTE = ("Trusted: Lean kernel + standard axioms; hand-written parser model tied by correspondence; the spelling generator "
+              "and the oracle's re-statement of 'intended assignment' (harness/parser_common.py, harness/props/c01.py). The "
+              "universal spelling theorem (DESIGN 6/C01 parse_spells) is open: sampled, not proved.")
 RULE = ("formats (0-5 options of every mode x type x nullable x short presence, 0-4 arguments, 0-2 command names with "
         "aliases, with/without base) x assignment x one random spelling (long=, long sp, short attached, short sp, "
         "grouped flags, interleaving, -- tail, command names by name/alias or suffix omitted); non-trivial = at least "
         "two items set; distinct = distinct (format, tokens)")
-TRUSTED_BASE = []
-ASSUMPTIONS = []
+TRUSTED_BASE = [
+    "Lean 4.33 kernel; axioms within propext, Classical.choice, Quot.sound (audited per theorem on every run)",
+    "lean/Clikit/Model/Parser.lean: hand-written model of DefaultArgsParser/Args (modelled, not verified; tied by the correspondence)",
+    "harness/parser_common.py (format/line generators) and the oracle in harness/props/c01.py",
+    "CPython int()/float(): parameters of the model, supplied as tables by the running interpreter",
+]
+ASSUMPTIONS = [
+    "the spelling-recovers-assignment claim itself is explored (seeded generation), not proved",
+    "an optional-value option given without a value reports its default converted to the declared type (as the code does)",
+]
 BATCH = 2000
 
 
 def generate(tier, rng):
-    n = 6000 if tier == "quick" else 120000
+    n = 25000 if tier == "quick" else 300000
     for k in range(n):
         spec = pc.gen_format(rng)
         try:
